@@ -74,11 +74,14 @@ def Val.isNum : Val → Bool
   | .num _ => true
   | _ => false
 
+/-- one entry as a number, raising `e` when it is not numeric -/
+def numCell (e : Err) (v : Val) : Except Err Rat :=
+  match v.toRat? with
+  | some q => .ok q
+  | none => .error e
+
 /-- a column as numbers, raising `e` on a non-numeric entry -/
-def nums (e : Err) (l : List Val) : Except Err (List Rat) :=
-  mapE (fun v => match v.toRat? with
-    | some q => .ok q
-    | none => .error e) l
+def nums (e : Err) (l : List Val) : Except Err (List Rat) := mapE (numCell e) l
 
 /-- `np.round` (round half to even) -/
 def roundHalfEven (q : Rat) : Int :=
@@ -197,6 +200,23 @@ def Stage.transform (L : Rat → Rat) : Stage → Col → Except Err Col
     | .ok rows => .ok (.mat rows)
   | _, .mat _ => .error .unsupported
 
+/-- `type_func(x)` with `type_func = int` -/
+def identityTypedCell : Val → Except Err Val
+  | .num q => .ok (.int (truncZero q))
+  | .int i => .ok (.int i)
+  | .bool b => .ok (.int (if b then 1 else 0))
+  | .str _ => .error .valueError
+
+/-- `inverse_mapping_[int(np.round(i))]` over the sorted categories `s` (a dict: `KeyError` for
+an index that is not a key, negative ones included) -/
+def labelInvCell (s : List Val) (x : Rat) : Except Err Val :=
+  let k := roundHalfEven x
+  if 0 ≤ k then
+    match s[k.toNat]? with
+    | some v => .ok v
+    | none => .error .keyError
+  else .error .keyError
+
 /-- inverse of the one-hot / binarized encoding of one sample -/
 def oneHotInv (cats : List Val) (row : List Rat) : Except Err Val :=
   match cats with
@@ -218,11 +238,7 @@ def Stage.inverse (E : Rat → Rat) : Stage → Col → Except Err Col
   | .identity, c => .ok c
   | .identityTyped, .vals l =>
     -- after `fix: Identity(type_func).inverse_transform converts every row`
-    match mapE (fun v => match v with
-        | .num q => .ok (Val.int (truncZero q))
-        | .int i => .ok (Val.int i)
-        | .bool b => .ok (Val.int (if b then 1 else 0))
-        | .str _ => .error Err.valueError) l with
+    match mapE identityTypedCell l with
     | .error e => .error e
     | .ok r => .ok (.vals r)
   | .logN, .vals l =>
@@ -242,13 +258,7 @@ def Stage.inverse (E : Rat → Rat) : Stage → Col → Except Err Col
     match nums .typeError l with
     | .error e => .error e
     | .ok xs =>
-      match mapE (fun x =>
-          let k := roundHalfEven x
-          if 0 ≤ k then
-            match s[k.toNat]? with
-            | some v => .ok v
-            | none => .error Err.keyError
-          else .error Err.keyError) xs with
+      match mapE (labelInvCell s) xs with
       | .error e => .error e
       | .ok r => .ok (.vals r)
   | .oneHot cats, .vals l =>
@@ -408,17 +418,21 @@ def memRow : List Dim → List Val → Bool
 /-! ### the space: pack / unpack -/
 
 /-- `np.asarray(c).reshape((n, -1))`: a 1-D result is one column, a 2-D result keeps its rows -/
+def rowOfVal (v : Val) : Except Err (List Rat) :=
+  match v.toRat? with
+  | some q => .ok [q]
+  | none => .error .unsupported
+
 def Col.toRows : Col → Except Err (List (List Rat))
-  | .vals l => mapE (fun v => match v.toRat? with
-      | some q => .ok [q]
-      | none => .error Err.unsupported) l
+  | .vals l => mapE rowOfVal l
   | .mat rows => .ok rows
 
 /-- `[X[i][j] for i in range(len(X))]` for the current first column -/
-def heads (X : List (List Val)) : Except Err (List Val) :=
-  mapE (fun r => match r with
-    | [] => .error Err.indexError
-    | v :: _ => .ok v) X
+def headE : List Val → Except Err Val
+  | [] => .error .indexError
+  | v :: _ => .ok v
+
+def heads (X : List (List Val)) : Except Err (List Val) := mapE headE X
 
 /-- pack by dimension and transform: one block of rows per dimension -/
 def transformCols (L : Rat → Rat) : List Dim → List (List Val) → Except Err (List (List (List Rat)))
@@ -450,26 +464,30 @@ def transform (L : Rat → Rat) (dims : List Dim) (X : List (List Val)) : Except
     | .error e => .error e
     | .ok blocks => .ok (hstack X.length blocks)
 
+/-- `Xt[:, start]` (1-D) when `transformed_size == 1`, else `Xt[:, start:start+size]` (2-D), for the
+columns that are still in front -/
+def headNumE : List Rat → Except Err Val
+  | [] => .error .indexError
+  | x :: _ => .ok (.num x)
+
+def sliceCol (off : Nat) (Xt : List (List Rat)) : Except Err Col :=
+  if off = 1 then
+    match mapE headNumE Xt with
+    | .error e => .error e
+    | .ok l => .ok (.vals l)
+  else .ok (.mat (Xt.map (List.take off)))
+
 /-- unpack by `transformed_size` and inverse-transform every dimension -/
 def inverseCols (L E : Rat → Rat) : List Dim → List (List Rat) → Except Err (List (List Val))
   | [], _ => .ok []
   | d :: ds, Xt =>
-    let off := d.transformedSize
-    let slice : Except Err Col :=
-      if off = 1 then
-        match mapE (fun r => match r with
-            | [] => .error Err.indexError
-            | x :: _ => .ok (Val.num x)) Xt with
-        | .error e => .error e
-        | .ok l => .ok (.vals l)
-      else .ok (.mat (Xt.map (List.take off)))
-    match slice with
+    match sliceCol d.transformedSize Xt with
     | .error e => .error e
     | .ok c =>
       match d.inverseTransform L E c with
       | .error e => .error e
       | .ok col =>
-        match inverseCols L E ds (Xt.map (List.drop off)) with
+        match inverseCols L E ds (Xt.map (List.drop d.transformedSize)) with
         | .error e => .error e
         | .ok rest => .ok (col :: rest)
 
@@ -502,6 +520,19 @@ def transformedNDims (dims : List Dim) : Nat := (dims.map Dim.transformedSize).s
 /-- `Space.transformed_bounds` -/
 def transformedBounds (L : Rat → Rat) (dims : List Dim) : List (Rat × Rat) :=
   dims.flatMap (Dim.transformedBounds L)
+
+/-- every coordinate of a transformed row inside its `(low, high)` pair, and as many coordinates
+as pairs -/
+def inBounds : List Rat → List (Rat × Rat) → Bool
+  | [], [] => true
+  | x :: xs, b :: bs => decide (b.1 ≤ x) && decide (x ≤ b.2) && inBounds xs bs
+  | _, _ => false
+
+/-- dimensions whose `inverse_transform` snaps *any* input to a member (clip / round / lookup):
+all but the identity-transformed categorical, which hands the value back unchanged -/
+def Dim.snaps : Dim → Bool
+  | .cat _ .identity => false
+  | _ => true
 
 /-! ### the code before `fix: Identity(type_func)…` (kept for the regression witnesses) -/
 
